@@ -434,8 +434,8 @@ func c05Rollback(c *Ctx, ruleID string) {
 				continue
 			}
 			// either this release is the 'nothing allocated' error path (dominated by Lookup()==nil), or a successful store delete dominates it
-			dom := false
-			for _, ft := range flow.FactsAtInstr(call) {
+			witness := func(ft flow.Fact) bool {
+				dom := false
 				if bo, isB := ft.Cond.(*ssa.BinOp); isB && isNilConst(bo.Y) {
 					n := errOriginAny(bo.X)
 					if (n == sp.delName || (sp.delName == "deleteAllocation()" && n == "Delete()")) && ((bo.Op == token.NEQ && !ft.Pol) || (bo.Op == token.EQL && ft.Pol)) {
@@ -445,6 +445,17 @@ func c05Rollback(c *Ctx, ruleID string) {
 						dom = true
 					}
 				}
+				return dom
+			}
+			// on every path to the release (the two cases may share one return site)
+			dom := false
+			for _, ft := range flow.FactsAtInstr(call) {
+				if witness(ft) {
+					dom = true
+				}
+			}
+			if !dom {
+				dom, _ = flow.EveryPathHas(call.Block(), witness)
 			}
 			if !dom {
 				ok, why = false, "the in-memory slot is freed at "+c.P.Pos(instrPos(call))+" before the store record is known to be gone: a failing store delete leaves memory (free) and store (allocated) in disagreement"
